@@ -43,7 +43,7 @@ Proof. rewrite sa_txt_app. apply s_head_not_paren. Qed.
 Lemma sa_head a k : ws_free (app (sa_txt a) k).
 Proof. rewrite sa_txt_app. apply s_head_free. Qed.
 Lemma sa_not_not a k : fspecj not_alt1 (app (sa_txt a) k).
-Proof. rewrite sa_txt_app. apply s_head_not_not. Qed.
+Proof. rewrite sa_txt_app. apply s_head_not_not. apply op_tail_sstop. Qed.
 
 (* ---- value [not] in sel: the value on the left is a literal in any style on which Selector fails at once -
         double-quoted (not starting with '/'), back-quoted, an integer or a number (instances: lval_of_qlit, lval_of_rlit here;
